@@ -157,10 +157,11 @@ func DataURI(dataURI []byte) ([]byte, []byte, error) {
 		inBase64 := false
 		var mediatype []byte
 		i := 0
+		prev := byte(0) // previous delimiter
 		for j := 0; j < len(dataURI); j++ {
 			c := dataURI[j]
 			if c == '=' || c == ';' || c == ',' {
-				if c != '=' && bytes.Equal(TrimWhitespace(dataURI[i:j]), base64Bytes) {
+				if c != '=' && prev != '=' && bytes.Equal(TrimWhitespace(dataURI[i:j]), base64Bytes) { // not a parameter name or value
 					if len(mediatype) > 0 {
 						mediatype = mediatype[:len(mediatype)-1]
 					}
@@ -189,6 +190,7 @@ func DataURI(dataURI []byte) ([]byte, []byte, error) {
 					}
 					return mediatype, data, nil
 				}
+				prev = c
 			}
 		}
 	}
